@@ -56,6 +56,7 @@ def run_pipeline(mc, pil, keep_all, thr, psm_cut, seed, d=None):
         x[:] = [x[i] for i in idx]
 
     def cut(peps, q):
+        rec.setdefault("pass_starts", []).append(len(rec["scores"]))     # one call per pass: the scores recorded after it belong to that pass
         v = real_cut(peps, q)
         rec["cutoffs"].append([[gens.fr(p) for p in peps], gens.fr(v), gens.fr(q)])
         return v
@@ -312,8 +313,10 @@ def pipeline_property_violation(case, out):
         cut = Fraction(rec["cutoffs"][-1][1]) if (rescue and rec["cutoffs"]) else None
         for r in rows:
             ids = r["ids"].split(";")
-            cands = [inf for inf, v in rec["scores"] if Fraction(v) == Fraction(r["score"]) and any(i[1] == r["best"] for i in inf)
-                     and set(ids) <= {p for i in inf for p in i[2]} | set(ids if not inf else [])]
+            # the evidence of a reported row: a scoring call of the LAST pass with the row's score and best peptide (with discarded
+            # shared peptides a peptide is evidence of one group only, so the pair identifies the group)
+            last = rec["scores"][(rec.get("pass_starts") or [0])[-1]:]
+            cands = [inf for inf, v in last if Fraction(v) == Fraction(r["score"]) and any(i[1] == r["best"] for i in inf)]
             wants = {tuple(len({i[1] for i in inf if (cut is None or Fraction(i[0]) <= cut) and p in i[2]}) for p in ids) for inf in cands}
             if len(wants) == 1 and list(next(iter(wants))) != list(r["counts"]):
                 return "peptide-counts-not-judged-against-the-cutoff-of-the-reported-grouping"
